@@ -1444,7 +1444,9 @@ impl World {
                         None
                     }
                 }
-                Kind::MapRef(..) if self.track[n].unknown_since.is_some() => None,
+                // (a projection that was re-linked may report a change although the value is the
+                // same; a real change is always reported)
+                Kind::MapRef(..) if self.track[n].unknown_since.is_some() && prev == now => None,
                 _ => Some(prev != now),
             },
             CutoffKind::Never | CutoffKind::LogNever => match &info.kind {
